@@ -99,6 +99,13 @@ func (fr *Frame) call(x ssa.Value, cc *ssa.CallCommon, st *State, pc Term) Value
 
 func (fr *Frame) callValues(x ssa.Value, cc *ssa.CallCommon, fnv Value, args []Value, st *State, pc Term, pos token.Pos) Value {
 	u := fr.u
+	fr.curArgTypes = fr.curArgTypes[:0]
+	if cc.IsInvoke() {
+		fr.curArgTypes = append(fr.curArgTypes, cc.Value.Type())
+	}
+	for _, a := range cc.Args {
+		fr.curArgTypes = append(fr.curArgTypes, a.Type())
+	}
 	var resT types.Type = cc.Signature().Results()
 	if cc.Signature().Results().Len() == 1 {
 		resT = cc.Signature().Results().At(0).Type()
@@ -290,8 +297,31 @@ func (fr *Frame) inline(fn *ssa.Function, bindings []Value, args []Value, st *St
 }
 
 // havocCall: unknown callee. Results are fresh, heap reachable from pointer arguments is havoced.
+// havocSliceArg forgets the elements of a slice passed to an unmodelled callee.
+func (u *Unit) havocSliceArg(st *State, s SliceV, t types.Type) {
+	sl, ok := t.Underlying().(*types.Slice)
+	if !ok {
+		return
+	}
+	elem := sl.Elem()
+	p := PtrV{Base: s.Arr, Obj: elem, Arr: true}
+	for _, lf := range leaves(elem) {
+		name, _ := compName(p, lf.Path)
+		u.m.markRef(name, lf.Kind)
+		comp := u.m.comp(st, name, u.m.compSort(true, lf.Sort))
+		ni := u.c.Fresh("hvelems", ArrSort(SInt, lf.Sort))
+		u.m.noteWrite(name, s.Arr)
+		st.heap[name] = u.c.Def(name, Ite(Eq(s.Arr, IntLit(0)), comp, Store(comp, s.Arr, ni)))
+	}
+}
+
 func (fr *Frame) havocCall(name string, resT types.Type, args []Value, st *State, pc Term) Value {
 	u := fr.u
+	for i, a := range args {
+		if sv, ok := a.(SliceV); ok && i < len(fr.curArgTypes) {
+			u.havocSliceArg(st, sv, fr.curArgTypes[i])
+		}
+	}
 	u.c.Note("unmodelled call (results fresh, argument objects havoced): " + shortFn(name))
 	u.extUsed["havoc:"+shortFn(name)] = true
 	for _, a := range args {
@@ -324,10 +354,17 @@ func (u *Unit) havocReachable(st *State, v Value, depth int) {
 		nv := u.m.FreshValue(st, "hv", t)
 		u.m.StoreVal(st, x, nv)
 	case SliceV:
-		// contents of the backing array: not known statically which element type; skip (byte slices
-		// passed to unknown callees are treated as read-only; noted)
-		u.c.Note("slice arguments of unmodelled calls are assumed not to be written")
+		// contents of the backing array may be overwritten by the callee; the element type is not known
+		// here, see havocSliceArg (called with the static argument type)
 	case IfaceV:
+		// an interface holding a pointer of statically known dynamic type: the callee may write the pointee
+		if id, isLit := litVal(x.Tag); isLit && id.Sign() > 0 {
+			if dt, ok := u.m.tidTyp[id.Int64()]; ok {
+				if pt, isPtr := dt.Underlying().(*types.Pointer); isPtr {
+					u.havocReachable(st, u.m.ptrFromTerm(x.Pay, pt.Elem()), depth+1)
+				}
+			}
+		}
 	case StructV:
 		for _, f := range x.F {
 			u.havocReachable(st, f, depth+1)
